@@ -97,6 +97,10 @@ def explore_job(ix, name, run, obligations, overrides=None, pre=None, panics_are
     prec = pre_list[0] if pre_list else z3.BoolVal(True)
     ts = time.time()
     for kind, out, pc in results:
+        if deadline is not None and time.time() > deadline + 180 and not res.violations:
+            # the budget also bounds the deciding phase: an over-long job counts as not completed (its rung is reported as not covered)
+            if not e.truncated: res.inconclusive.append(f'exploration truncated (deadline reached while discharging obligations, {res.obligations} done)')
+            e.truncated = e.truncated or 'deadline'; break
         if kind == 'panic':
             res.panic_paths += 1
             if panics_are_violations:
@@ -130,7 +134,7 @@ def explore_job(ix, name, run, obligations, overrides=None, pre=None, panics_are
                 res.violations.append(v)
             else:
                 # wall-clock timeouts are load dependent: retry once in a fresh solver with a much larger limit before giving up
-                s2 = z3.Solver(); s2.set('timeout', timeout_ms * 10); s2.add(prec, *pc, z3.Not(formula)); r2 = s2.check()
+                s2 = z3.Solver(); s2.set('timeout', timeout_ms * (10 if deadline is None or time.time() < deadline else 1)); s2.add(prec, *pc, z3.Not(formula)); r2 = s2.check()
                 if r2 == z3.unsat: res.discharged += 1
                 elif r2 == z3.sat:
                     m = s2.model(); v = Violation(name, label, model_to_json(m), f'path={kind} out={short(out)}', key=label)
